@@ -257,6 +257,11 @@ func c15Scenarios() []c15Scenario {
 			_, err := b.Parser.ParseArgs([]string{"aid"})
 			return errText(err)
 		}},
+		{"errors", "unknown long flag equally near to two declared ones", func() string {
+			b := d.BuildTags()
+			_, err := b.Parser.ParseArgs([]string{"--pOrt=1"})
+			return errText(err)
+		}},
 		{"errors", "invalid choice and unknown flag", func() string {
 			b := d.BuildTags()
 			_, err := b.Parser.ParseArgs([]string{"--nope", "--nada"})
